@@ -153,13 +153,14 @@ Definition single (f : lfile) : Prop :=
   | _ => False
   end.
 (* a file that holds records has a positive size; it respects the limit or holds a single record *)
+Definition RSfile (f : lfile) : Prop := Forall (fun rp => rec_small (fst rp)) (lf_recs f).
 Definition FL (fs : N) (f : lfile) : Prop :=
-  (lf_recs f = [] \/ 0 < lf_size f) /\ (lf_size f <= fs \/ single f).
+  ((lf_recs f = [] \/ 0 < lf_size f) /\ RSfile f) /\ (lf_size f <= fs \/ single f).
 Definition FLdb (d : db) : Prop :=
   FL (c_fsize (d_cfg d)) (d_active d) /\ forall i f, In (i, f) (d_older d) -> FL (c_fsize (d_cfg d)) f.
 
 Lemma FL_same fs f g : lf_recs g = lf_recs f -> lf_size g = lf_size f -> FL fs f -> FL fs g.
-Proof. unfold FL, single. intros -> ->. auto. Qed.
+Proof. unfold FL, single, RSfile. intros -> ->. auto. Qed.
 
 Lemma in_older_set o : forall id f i g, In (i, g) (older_set o id f) -> (i, g) = (id, f) \/ In (i, g) o.
 Proof.
@@ -183,7 +184,7 @@ Proof.
   injection Hr as <- <-. unfold FLdb. cbn [d_active d_cfg d_older].
   split; [|split; [exact O2|split; [exact O1|reflexivity]]].
   split.
-  - split; [left; exact O1|left; rewrite O2; lia].
+  - split; [split; [left; exact O1|unfold RSfile; rewrite O1; constructor]|left; rewrite O2; lia].
   - intros i0 f0 Hin. apply in_older_set in Hin. destruct Hin as [E|Hin]; [|exact (Ho i0 f0 Hin)].
     injection E as -> ->. exact (FL_same _ _ _ S1 S2 Ha).
 Qed.
@@ -195,12 +196,13 @@ Proof. intros [_ Ho] Ha. split; [exact Ha|exact Ho]. Qed.
 Lemma FL_after_append fs f f' (sum : N) (out : list (record * pos)) :
   FL fs f -> lf_size f <= lf_size f' -> lf_size f' <= lf_size f + sum -> (out <> [] -> 0 < lf_size f') ->
   (out = [] -> lf_size f' = lf_size f) ->
-  lf_recs f' = lf_recs f ++ out ->
+  lf_recs f' = lf_recs f ++ out -> Forall (fun rp => rec_small (fst rp)) out ->
   (lf_size f + sum <= fs \/ (lf_size f = 0 /\ (length out <= 1)%nat)) ->
   FL fs f'.
 Proof.
-  intros [Hz Hl] G1 G2 Gp Hnil Hrecs Hcase. split.
-  - destruct out as [|x out]; [|right; apply Gp; discriminate].
+  intros [[Hz Hrs] Hl] G1 G2 Gp Hnil Hrecs Hsm Hcase. split.
+  - split; [|unfold RSfile; rewrite Hrecs; apply Forall_app; split; assumption].
+    destruct out as [|x out]; [|right; apply Gp; discriminate].
     rewrite app_nil_r in Hrecs. destruct Hz as [Hz|Hz]; [left; congruence|right; lia].
   - destruct Hcase as [Hfit|[Hzero Hone]]; [left; lia|].
     destruct Hz as [Hz|Hz]; [|lia]. rewrite Hz in Hrecs. cbn [app] in Hrecs.
@@ -222,6 +224,7 @@ Proof.
     - rewrite <- Hc. exact (proj1 HF1).
     - intros _. exact G4.
     - discriminate.
+    - constructor; [exact Hs|constructor].
     - unfold rec_est. fold est. destruct Hcase as [A|[A _]]; [left; exact A|right; split; [exact A|cbn; lia]]. }
   destruct (c_fsize (d_cfg d) <? lf_size (d_active d) + est) eqn:Efit.
   - destruct (db_rotate d) as [d1 ev1] eqn:Er. destruct (db_rotate_FL d d1 ev1 HF Er) as (HF1 & Z1 & Z2 & Hc).
@@ -360,7 +363,7 @@ Proof.
       exists d1, ev1. split; [reflexivity|]. split; [exact HF1|]. split; [exact Hc|]. right. split; assumption.
     - exists d, []. split; [reflexivity|]. split; [exact HF|]. split; [reflexivity|]. apply andb_false_iff in Erot. destruct Erot as [E|E].
       + apply N.ltb_ge in E. right. assert (Hz : sz = 0) by lia. split; [exact Hz|].
-        destruct (proj1 (proj1 HF)) as [A|A]; [exact A|fold sz in A; lia].
+        destruct (proj1 (proj1 (proj1 HF))) as [A|A]; [exact A|fold sz in A; lia].
       + apply N.ltb_ge in E. left. exact E. }
   destruct Hpre as (d1 & ev1 & Epre & HF1 & Hc & Hcase). rewrite Epre in Hf.
   destruct (lf_append_all (io_of d1) (FData (d_active_id d1)) (d_active_id d1) (d_active d1) (map (tag (b_id b)) (b_staged b))) as [[a ps] ev2] eqn:Eapp.
@@ -372,6 +375,7 @@ Proof.
   { apply (FL_after_append fs (d_active d1) a (sum_est (b_staged b)) out); try assumption.
     - pose proof (proj1 HF1) as H1. rewrite Hc in H1. exact H1.
     - intros Hne. apply Gp. intros E. apply Hne. destruct out; [reflexivity|]. rewrite <- G4 in E. discriminate.
+    - apply Forall_forall. intros rp Hrp. rewrite Forall_forall in Htag. apply Htag. rewrite <- G4. apply in_map. exact Hrp.
     - destruct Hcase as [A|[A B]]; [left; lia|]. destruct Hfit as [F|F]; [left; lia|right; split; [exact A|rewrite Hlen; exact F]]. }
   assert (Hshape : b_staged b <> [] -> lf_size a + maxFinRecord <= fs \/ (exists x, lf_recs a = [x])).
   { intros Hne. destruct Hcase as [A|[A B]]; [left; lia|]. destruct Hfit as [F|F]; [left; lia|].
@@ -552,8 +556,11 @@ Proof.
       + pose proof (proj1 HF1) as H1. rewrite Hc1 in H1. exact H1.
       + intros _. exact G4.
       + discriminate.
+      + constructor; [exact Hss|constructor].
       + left. lia.
-    - split; [right; exact G4|]. right. unfold single. rewrite G3, Hx. cbn [app]. reflexivity. }
+    - split; [split; [right; exact G4|]|right; unfold single; rewrite G3, Hx; cbn [app]; reflexivity].
+      unfold RSfile. rewrite G3. apply Forall_app. split; [|constructor; [exact Hss|constructor]].
+      pose proof (proj1 HF1) as H1. exact (proj2 (proj1 H1)). }
   set (a' := fst (if b_sync b then h_sync (FData (d_active_id d1)) a else (a, []))).
   assert (Ha' : lf_recs a' = lf_recs a /\ lf_size a' = lf_size a) by (unfold a'; destruct (b_sync b); [apply h_sync_same|auto]).
   destruct (if b_sync b then h_sync (FData (d_active_id d1)) a else (a, [])) as [a'' ev3] eqn:Es. cbn [fst] in a'. subst a'.
@@ -671,7 +678,7 @@ Proof.
   destruct (h_open (c_io c) (FData 0) false lf_empty) as [n ev] eqn:Ho. cbn [fst] in *.
   intros H. injection H as <- _ _. cbn [d_cfg]. split; [|reflexivity].
   split; cbn [d_active d_older d_cfg].
-  - split; [left; exact Hr|left; rewrite Hs; lia].
+  - split; [split; [left; exact Hr|unfold RSfile; rewrite Hr; constructor]|left; rewrite Hs; lia].
   - intros i f [].
 Qed.
 
@@ -815,7 +822,7 @@ Proof.
     destruct (replay_files_files files (mkDb c 0 n [] [] 0 0 0) [] 0) as (A & B & C & D).
     destruct (replay_files (mkDb c 0 n [] [] 0 0 0) [] files 0) as [d3 t3]. cbn [fst andb d_active d_older d_cfg d_active_id] in *.
     injection H as <- <- _. split; [|split; [exact C|exact Hnm]].
-    unfold FLdb. rewrite A, B, C. split; [split; [left; exact Hr|left; rewrite Hs; lia]|intros i g []].
+    unfold FLdb. rewrite A, B, C. split; [split; [split; [left; exact Hr|unfold RSfile; rewrite Hr; constructor]|left; rewrite Hs; lia]|intros i g []].
 Qed.
 
 Lemma db_open_never_fails c k e k2 ev : db_open c k <> (OpenErr e k2, ev).
@@ -884,4 +891,123 @@ Proof.
   { destruct (EngineRecover.open_empty_log c) as (d1 & k1 & e1 & Ho1 & _ & Hnm). rewrite Ho in Ho1. injection Ho1 as _ <- _. exact Hnm. }
   pose proof (files_respect_the_limit_across_restarts ops (c_fsize c) d0 k0 d k rs evs HF Hk ltac:(rewrite Hc; lia) Hs Hr) as [Ha Hold].
   split; [exact (proj2 Ha)|]. intros i f Hin. exact (proj2 (Hold i f Hin)).
+Qed.
+
+(* ---- the rewritten files of a Merge respect the limit too ---------------------------------------------- *)
+Definition MSI (fs : N) (m : mstate) : Prop :=
+  FL fs (ms_active m) /\ forall i f, In (i, f) (ms_older m) -> FL fs f.
+
+Lemma ms_append_FL c m r m' p evs : MSI (c_fsize c) m -> rec_small r -> ms_append c m r = (m', p, evs) -> MSI (c_fsize c) m'.
+Proof.
+  intros [Ha Ho] Hs Happ. unfold ms_append in Happ.
+  set (est := disk_size_estimate (len (r_key r)) (len (r_value r))) in *.
+  assert (Hcore : forall f nm fid a p0 ev2, FL (c_fsize c) f ->
+            (lf_size f + est <= c_fsize c \/ (lf_size f = 0 /\ lf_recs f = [])) ->
+            lf_append (c_io c) nm fid f r = (a, p0, ev2) -> FL (c_fsize c) a).
+  { intros f nm fid a p0 ev2 Hf Hcase Eapp. destruct (lf_append_growth _ _ _ _ _ _ _ _ Hs Eapp) as (G1 & G2 & G3 & G4).
+    apply (FL_after_append _ f a (rec_est r) [(r, p0)]); try assumption.
+    - intros _. exact G4.
+    - discriminate.
+    - constructor; [exact Hs|constructor].
+    - unfold rec_est. fold est. destruct Hcase as [A|[A _]]; [left; exact A|right; split; [exact A|cbn; lia]]. }
+  destruct (c_fsize c <? lf_size (ms_active m) + est) eqn:Efit.
+  - destruct (h_sync_same (MData (ms_active_id m)) (ms_active m)) as [S1 S2].
+    destruct (h_sync (MData (ms_active_id m)) (ms_active m)) as [a e1]. cbn [fst] in *.
+    destruct (h_open_new (c_io c) (MData (ms_active_id m + 1))) as [O1 O2].
+    destruct (h_open (c_io c) (MData (ms_active_id m + 1)) false lf_empty) as [n e2]. cbn [fst] in *.
+    cbn [ms_active ms_active_id ms_older ms_hint] in Happ.
+    destruct (lf_append (c_io c) (MData (ms_active_id m + 1)) (ms_active_id m + 1) n r) as [[a2 p0] ev2] eqn:Eapp.
+    injection Happ as <- _ _. split; cbn [ms_active ms_older].
+    + apply (Hcore n (MData (ms_active_id m + 1)) (ms_active_id m + 1) a2 p0 ev2); [|right; split; [exact O2|exact O1]|exact Eapp].
+      split; [split; [left; exact O1|unfold RSfile; rewrite O1; constructor]|left; rewrite O2; lia].
+    + intros i f Hin. apply in_older_set in Hin. destruct Hin as [E|Hin]; [|exact (Ho i f Hin)].
+      injection E as -> ->. exact (FL_same _ _ _ S1 S2 Ha).
+  - apply N.ltb_ge in Efit.
+    destruct (lf_append (c_io c) (MData (ms_active_id m)) (ms_active_id m) (ms_active m) r) as [[a2 p0] ev2] eqn:Eapp.
+    injection Happ as <- _ _. split; cbn [ms_active ms_older]; [|exact Ho].
+    apply (Hcore (ms_active m) (MData (ms_active_id m)) (ms_active_id m) a2 p0 ev2 Ha (or_introl Efit) Eapp).
+Qed.
+
+Lemma ms_hint_append_FL c m k p m' evs : MSI (c_fsize c) m -> ms_hint_append c m k p = (m', evs) -> MSI (c_fsize c) m'.
+Proof.
+  intros HM H. unfold ms_hint_append in H.
+  destruct (frame 0 (hf_size (ms_hint m) / blockSize) (hf_size (ms_hint m) mod blockSize) (hint_len k p)) as [[q b'] s'].
+  injection H as <- _. exact HM.
+Qed.
+
+Lemma merge_file_FL c ix fid nm : forall rs m res evs,
+  MSI (c_fsize c) m -> Forall (fun rp => rec_small (fst rp)) rs -> merge_file c ix fid nm m rs = (res, evs) ->
+  match res with MsOk m' => MSI (c_fsize c) m' | MsErr _ m' => MSI (c_fsize c) m' end.
+Proof.
+  induction rs as [|[r p] rs IH]; intros m res evs HM Hs Hm; cbn [merge_file] in Hm; [injection Hm as <- _; exact HM|].
+  pose proof (Forall_inv Hs) as Hr. pose proof (Forall_inv_tail Hs) as Hrs. cbn [fst] in Hr.
+  destruct (idx_get ix (r_key r)) as [q|]; [|exact (IH _ _ _ HM Hrs Hm)].
+  destruct ((p_fid q =? fid) && (p_off q =? p_off p) && (p_bid q =? p_bid p)); [|exact (IH _ _ _ HM Hrs Hm)].
+  destruct (ms_append c m (mkRec (r_type r) (r_key r) (r_value r) 0)) as [[m1 np] ev1] eqn:Ea.
+  assert (Hsm : rec_small (mkRec (r_type r) (r_key r) (r_value r) 0)) by (split; [exact (proj1 Hr)|cbn; lia]).
+  pose proof (ms_append_FL _ _ _ _ _ _ HM Hsm Ea) as HM1.
+  destruct (nm <=? ms_active_id m1); [injection Hm as <- _; exact HM1|].
+  destruct (ms_hint_append c m1 (r_key r) np) as [m2 ev2] eqn:Eh. pose proof (ms_hint_append_FL _ _ _ _ _ _ HM1 Eh) as HM2.
+  destruct (merge_file c ix fid nm m2 rs) as [res3 ev3] eqn:E3. injection Hm as <- _. exact (IH _ _ _ HM2 Hrs E3).
+Qed.
+
+Lemma merge_files_MSI c : forall order d nm m d' res evs,
+  FLdb d -> c_fsize (d_cfg d) <= c_fsize c -> MSI (c_fsize c) m -> merge_files c d order nm m = (d', res, evs) ->
+  match res with MsOk m' => MSI (c_fsize c) m' | MsErr _ m' => MSI (c_fsize c) m' end.
+Proof.
+  induction order as [|fid order IH]; intros d nm m d' res evs HF Hle HM Hm; cbn [merge_files] in Hm; [injection Hm as _ <- _; exact HM|].
+  destruct (older_get (d_older d) fid) as [f|] eqn:Eg; [|exact (IH _ _ _ _ _ _ HF Hle HM Hm)].
+  destruct (scan_touch_same (c_io c) (FData fid) f) as [S1 S2].
+  destruct (scan_touch (c_io c) (FData fid) f) as [f' ev0]. cbn [fst] in *.
+  set (d1 := set_older d (older_set (d_older d) fid f')) in *.
+  assert (Hf : FL (c_fsize (d_cfg d)) f) by exact (proj2 HF _ _ (older_get_in _ _ _ Eg)).
+  assert (HF1 : FLdb d1).
+  { destruct HF as [Ha Ho]. split; [exact Ha|]. unfold d1. cbn [d_older set_older d_cfg]. intros i g Hin. apply in_older_set in Hin.
+    destruct Hin as [E|Hin]; [|exact (Ho i g Hin)]. injection E as -> ->. exact (FL_same _ _ _ S1 S2 Hf). }
+  assert (Hrs : Forall (fun rp => rec_small (fst rp)) (lf_recs f')) by (rewrite S1; exact (proj2 (proj1 Hf))).
+  destruct (merge_file c (d_index d1) fid nm m (lf_recs f')) as [r1 ev1] eqn:E1.
+  pose proof (merge_file_FL c _ _ _ _ _ _ _ HM Hrs E1) as HM1.
+  destruct r1 as [m'|e m'].
+  - destruct (merge_files c d1 order nm m') as [[d2 res2] ev2] eqn:E2. injection Hm as _ <- _.
+    exact (IH _ _ _ _ _ _ HF1 Hle HM1 E2).
+  - injection Hm as _ <- _. exact HM1.
+Qed.
+
+Lemma ms_close_older_in io : forall l i g, In (i, g) (fst (ms_close_older io l)) ->
+  exists f, In (i, f) l /\ lf_recs g = lf_recs f /\ lf_size g = lf_size f.
+Proof.
+  induction l as [|[j f] l IH]; intros i g Hin; cbn [ms_close_older] in Hin; [destruct Hin|].
+  destruct (h_close_same io (MData j) f) as (A & B & _).
+  destruct (h_close io (MData j) f) as [f' ev1]. destruct (ms_close_older io l) as [rest ev2]. cbn [fst] in *.
+  destruct Hin as [E|Hin].
+  - injection E as <- <-. exists f. split; [left; reflexivity|auto].
+  - destruct (IH i g Hin) as (f0 & H0 & H1). exists f0. split; [right; exact H0|exact H1].
+Qed.
+
+(* a Merge that finishes: every rewritten file respects the limit or holds a single record *)
+Theorem merge_output_respects_the_limit d k order d' k' evs :
+  FLdb d -> db_merge d k order = (d', k', None, evs) ->
+  exists md, k_merge k' = Some md /\ forall i f, In (i, f) (m_files md) -> lf_size f <= c_fsize (d_cfg d) \/ single f.
+Proof.
+  intros HF Hm. unfold db_merge in Hm.
+  destruct (db_rotate d) as [d1 ev1] eqn:Er. destruct (db_rotate_FL _ _ _ HF Er) as (HF1 & _ & _ & Hc1).
+  destruct (h_open_new (c_io (d_cfg d)) (MData 0)) as [O1 O2].
+  destruct (h_open (c_io (d_cfg d)) (MData 0) false lf_empty) as [a0 ev3]. cbn [fst] in *.
+  destruct (hf_open_new (c_io (d_cfg d))) as [h0 ev4].
+  assert (HM0 : MSI (c_fsize (d_cfg d)) (mkMs 0 a0 [] h0)).
+  { split; cbn [ms_active ms_older]; [|intros i f []].
+    split; [split; [left; exact O1|unfold RSfile; rewrite O1; constructor]|left; rewrite O2; lia]. }
+  destruct (merge_files (d_cfg d) d1 order (d_active_id d1) (mkMs 0 a0 [] h0)) as [[d2 res] ev5] eqn:Emf.
+  pose proof (merge_files_MSI (d_cfg d) order d1 _ _ _ _ _ HF1 ltac:(rewrite Hc1; lia) HM0 Emf) as HMres.
+  destruct res as [m|err m]; [|discriminate].
+  destruct (hf_close (c_io (d_cfg d)) (ms_hint m)) as [h1 ev6].
+  destruct (h_close_same (c_io (d_cfg d)) (MData (ms_active_id m)) (ms_active m)) as (A & B & _).
+  destruct (h_close (c_io (d_cfg d)) (MData (ms_active_id m)) (ms_active m)) as [a1 ev7]. cbn [fst] in *.
+  pose proof (ms_close_older_in (c_io (d_cfg d)) (ms_older m)) as Hin.
+  destruct (ms_close_older (c_io (d_cfg d)) (ms_older m)) as [o1 ev8]. cbn [fst] in *.
+  destruct (db_sync d2) as [d3 evS]. injection Hm as _ <- _.
+  eexists. split; [reflexivity|]. cbn [m_files]. intros i f Hf. apply in_older_set in Hf. destruct HMres as [Ha Ho].
+  destruct Hf as [E|Hf].
+  - injection E as -> ->. exact (proj2 (FL_same _ _ _ A B Ha)).
+  - destruct (Hin i f Hf) as (f0 & Hf0 & R1 & R2). exact (proj2 (FL_same _ _ _ R1 R2 (Ho i f0 Hf0))).
 Qed.
